@@ -74,6 +74,9 @@ def check_pred(rep, ix):
         rep.ob('R-C10-ITER', site, 'iterates enumerate(frame_array.channels) in order', ok, node=f, module=m)
         if not ok:
             continue
+        # (a channel that passes the predicate is written by all three: the heading lists it, so a row that skips it has fewer columns)
+        jumps = [n for n in ast.walk(loop) if isinstance(n, (ast.Continue, ast.Break))]
+        rep.ob('R-C10-ITER', site, 'no channel that passes the predicate is skipped (no continue / break in the channel loop)', not jumps, found=f'{len(jumps)} continue / break', node=jumps[0] if jumps else f, module=m)
         setname = f.args.args[setparam].arg
         p, iff = _pred(f, loop, setname)
         g = cfgmod.CFG(f)
@@ -259,6 +262,10 @@ def run(rep, ix, tier):
     from . import C09
     C09.check_kinds(rep, ix)
     C09.check_field_regex(rep, ix)
+    # the number of rows written is len(x_axis): arrays are re-allocated whenever the requested length differs (rules of C04)
+    from . import C04
+    C04.check_len(rep, ix)
+    rep.floor('R-C04-REUSE', 3)
     rep.floor('R-C09-KINDS', 3)
     rep.floor('R-C10-PRED', 8)
     rep.floor('R-C10-ITER', 7)
